@@ -29,31 +29,31 @@ import (
 	"time"
 )
 
-const (
-	repoDir  = "/repo"
-	goBin    = "go1.26.8"
+const goBin = "go1.26.8"
+
+var (
+	repoDir  = "/repo" // VERIF_REPO points a development run at a scratch worktree; registered commands never set it
+	verifDir = "/verif"
 )
 
-var verifDir = "/verif"
-
 type scenSpec struct {
-	Name   string
-	Share  int               // share of the time budget
-	Opts   map[string]string // passed to the worker (VSIM_OPTS)
+	Name  string
+	Share int               // share of the time budget
+	Opts  map[string]string // passed to the worker (VSIM_OPTS)
 }
 
 type propSpec struct {
-	ID        string
-	Scenarios []scenSpec
-	Level     string
-	QuickSec  int
+	ID          string
+	Scenarios   []scenSpec
+	Level       string
+	QuickSec    int
 	ThoroughSec int
-	Rule      string // how cases are generated and what makes one non-trivial
+	Rule        string // how cases are generated and what makes one non-trivial
 	Assumptions []string
-	LevelText string
-	Note      string
-	Technique string
-	DesignRef string
+	LevelText   string
+	Note        string
+	Technique   string
+	DesignRef   string
 }
 
 var commonAssumptions = []string{
@@ -75,15 +75,15 @@ func init() {
 	reg(&propSpec{ID: "C01", Level: "exploration", QuickSec: 40, ThoroughSec: 900, DesignRef: "6.C01",
 		LevelText: "seeded exploration of interleavings (every atomic, statement and lock a decision point) of allocate/recycle programs run by threads of two simulated processes on the real free-list code over one shared mapping; ownership/geometry/signature invariants checked at every allocation, verify and recycle; violations minimised and replayed exactly. Sampling: a clean batch is evidence, not proof.",
 		Scenarios: []scenSpec{{Name: "shmlist", Share: 1}},
-		Rule: "seeded generation of allocate/recycle programs (2-4 threads over creator and mapper views of one shared region, 1-2 size classes of 2-40 slots) x seeded schedules (random walk / PCT / targeted delay) with every atomic, statement and harness op a decision point; a run is non-trivial if it had more context switches than thread starts need and executed >2 allocator ops; distinct = distinct schedule signatures (hash of (process, site kind, site) at each context switch) among non-trivial runs"})
+		Rule:      "seeded generation of allocate/recycle programs (2-4 threads over creator and mapper views of one shared region, 1-2 size classes of 2-40 slots) x seeded schedules (random walk / PCT / targeted delay) with every atomic, statement and harness op a decision point; a run is non-trivial if it had more context switches than thread starts need and executed >2 allocator ops; distinct = distinct schedule signatures (hash of (process, site kind, site) at each context switch) among non-trivial runs"})
 	reg(&propSpec{ID: "C02", Level: "exploration", QuickSec: 40, ThoroughSec: 900, DesignRef: "6.C02",
 		LevelText: "same simulated executions as C01 with the conservation invariant evaluated by the scheduler root after every step at which no allocator operation is in flight (free count, own chain walk, tail), free+held<=capacity at every step, and full capacity after everything is recycled.",
 		Scenarios: []scenSpec{{Name: "shmlist", Share: 1}},
-		Rule: "same runs as C01 with the conservation oracle: free count == capacity - held whenever no allocator op is in flight, chain walk from head visits exactly the free slots and ends at tail, free+held <= capacity at every step, full capacity after everything is recycled; non-trivial/distinct as for C01"})
+		Rule:      "same runs as C01 with the conservation oracle: free count == capacity - held whenever no allocator op is in flight, chain walk from head visits exactly the free slots and ends at tail, free+held <= capacity at every step, full capacity after everything is recycled; non-trivial/distinct as for C01"})
 	reg(&propSpec{ID: "C04", Level: "exploration", QuickSec: 40, ThoroughSec: 900, DesignRef: "6.C04",
 		Scenarios: []scenSpec{{Name: "shmqueue", Share: 1}},
 		LevelText: "seeded exploration of interleavings (single memory accesses as decision points) of 1-3 producer threads and the single consumer on the real ring code over one shared mapping, capacities 1-8, head/tail starting at 0, near 2^32 and beyond 2^40; the recorded invoke/return history is checked for linearizability against a bounded FIFO with porcupine, plus direct exactly-once / intact / per-producer order / 0<=tail-head<=cap checks at every step.",
-		Rule: "seeded generation of producer counts, put counts, consumer op sequences (pop/size/isEmpty), capacity and start index x seeded schedules; non-trivial = more context switches than thread starts need and at least one successful put and pop; distinct = distinct schedule signatures among non-trivial runs; histories <= 60 operations, porcupine Unknown counted as inconclusive (never reported)"})
+		Rule:      "seeded generation of producer counts, put counts, consumer op sequences (pop/size/isEmpty), capacity and start index x seeded schedules; non-trivial = more context switches than thread starts need and at least one successful put and pop; distinct = distinct schedule signatures among non-trivial runs; histories <= 60 operations, porcupine Unknown counted as inconclusive (never reported)"})
 	sessRule := "seeded generation of a session configuration (slice classes, queue capacity 1..8192, memfd or /dev/shm file, socket buffer 1 B..256 KiB, fragmentation, spurious EAGAIN), 1-5 multiplexed streams with writer/reader/callback programs on both ends (sizes anchored at slice capacities), neighbour threads that exhaust and scribble shared memory, process stalls x seeded schedules; non-trivial = more than 200 context switches and more than 3 harness operations; distinct = distinct schedule signatures among non-trivial runs"
 	for _, c := range []struct{ id, ref, text string }{
 		{"C05", "6.C05", "real sessions on the simulated kernel: after producers stop and every notification was delivered and handled (10 s of virtual silence) both receive queues are empty and no reader is still waiting for bytes that were flushed successfully"},
@@ -106,11 +106,11 @@ func init() {
 	reg(&propSpec{ID: "C14", Level: "fault_enumeration", QuickSec: 45, ThoroughSec: 1200, DesignRef: "6.C14",
 		Scenarios: []scenSpec{{Name: "sess", Share: 1, Opts: map[string]string{"sweep": "1"}}},
 		LevelText: "the session workload of C05-C11 with one fault injected at an exact scheduling step chosen from the tape (and, in the thorough tier, swept over the steps of sampled base runs): the peer process is killed (its goroutines frozen, its descriptors closed, shared memory left as it was), the connection is severed (with or without reset), or Session.Close is called once/twice/concurrently from foreign goroutines during traffic - during the handshake or at any later step. Oracle on the survivors: session closed within 5 s (virtual), no thread still blocked 30 s later, later calls fail, callback streams get exactly one close callback, no panic or access to unmapped memory (quarantined mappings), and after Close of both ends no descriptor, mapping or /dev/shm file of the session is left (ledger of the simulated kernel).",
-		Rule: sessRule + "; fault step drawn during the handshake (absolute step 5..400) or 0..5000 steps after establishment; fault kinds kill_client, kill_server, sever, sever_rst, close_client, close_server, close_both"})
+		Rule:      sessRule + "; fault step drawn during the handshake (absolute step 5..400) or 0..5000 steps after establishment; fault kinds kill_client, kill_server, sever, sever_rst, close_client, close_server, close_both"})
 	reg(&propSpec{ID: "C12", Level: "fault_enumeration", QuickSec: 35, ThoroughSec: 900, DesignRef: "6.C12",
 		Scenarios: []scenSpec{{Name: "hs", Share: 1, Opts: map[string]string{"sweep": "1"}}},
 		LevelText: "the real client and server handshakes over the simulated kernel for both mapping back-ends (memfd with fd passing -> protocol 3, /dev/shm file -> protocol 2), unix and tcp transport, with the peer made to stop answering (process frozen, connection open) or to die right after its k-th socket operation, k swept over the exchange; oracle: both ends succeed with the lower common version and the same buffer/queue memory seen through both mappings (pattern written through one mapping and read through the other, queues cross-wired), or both live ends fail within InitializeTimeout + 2 s, and after Close nothing (descriptor, memfd, mapping, file) is left in the ledger of the simulated kernel.",
-		Rule: "seeded session configurations x mapping type x transport x InitializeTimeout x fault (freeze|kill of client|server after its k-th socket operation, k in 0..13) x fragmentation x schedules; non-trivial = more than 2 socket operations were executed; distinct = distinct schedule signatures among non-trivial runs"})
+		Rule:      "seeded session configurations x mapping type x transport x InitializeTimeout x fault (freeze|kill of client|server after its k-th socket operation, k in 0..13) x fragmentation x schedules; non-trivial = more than 2 socket operations were executed; distinct = distinct schedule signatures among non-trivial runs"})
 	mgrRule := "seeded generation of a SessionManager configuration (1-3 sessions, pool capacity 1-4, rebuild interval 0.1-6 s), 1-4 caller threads doing GetStream/request/response/PutBack with keyed payloads (server-side close, unread responses, late unsolicited data, Close instead of PutBack), and a fault timeline (server killed/restarted, server-side sessions closed, hot restart with the new listener present, late or absent, repeated/stale epochs, SessionManager.Close) x seeded schedules; non-trivial = at least one use and more than 300 context switches; distinct = distinct schedule signatures among non-trivial runs"
 	reg(&propSpec{ID: "C15", Level: "exploration", QuickSec: 45, ThoroughSec: 1200, DesignRef: "6.C15", Scenarios: []scenSpec{{Name: "mgr", Share: 1}}, Rule: mgrRule,
 		LevelText: "the real SessionManager/streamPool against the real Listener on the simulated kernel: no stream is handed to two callers at once, a stream comes out of the pool without unread bytes and the response read on it belongs to the current use (payloads keyed by caller and use), and after everything settled each session's active-stream count equals what sits in its pool (callers hold nothing)."})
@@ -121,39 +121,39 @@ func init() {
 	reg(&propSpec{ID: "C18", Level: "exploration", QuickSec: 40, ThoroughSec: 1200, DesignRef: "6.C18",
 		Scenarios: []scenSpec{{Name: "evconn", Share: 3}, {Name: "sess", Share: 1}},
 		LevelText: "the repository's real epoll dispatcher and connection handler on the simulated kernel: writes of 1 B .. 5 MiB (write and writev, buffer growth and the >4 MiB shrink path) through socket buffers of 1 B .. 1 MiB with partial writes, EAGAIN, spurious EAGAIN and fragmented reads, a reader callback that consumes a tape-chosen prefix per invocation (nothing, half, n bytes, all) and a stalled reader process; oracle: every callback buffer equals the not yet consumed bytes followed by new ones of the written stream, nothing is shown that was not written, everything written is eventually offered and consumed exactly once. Concurrent senders are exercised where the code provides the exclusion (real sessions: wake-ups, send loop, fallback data, close events from several threads): a tap on both connections is parsed by an independent reference parser that must find whole events only.",
-		Rule: "seeded write sequences (sizes anchored at 8, 4096, 65536, 1 MiB, 4 MiB +-1) x socket buffer size x consumption pattern x fragmentation x schedules; non-trivial = bytes were written and more than 20 context switches; distinct = distinct schedule signatures among non-trivial runs; plus the sess workload with the wire tap"})
+		Rule:      "seeded write sequences (sizes anchored at 8, 4096, 65536, 1 MiB, 4 MiB +-1) x socket buffer size x consumption pattern x fragmentation x schedules; non-trivial = bytes were written and more than 20 context switches; distinct = distinct schedule signatures among non-trivial runs; plus the sess workload with the wire tap"})
 	reg(&propSpec{ID: "C19", Level: "exploration", QuickSec: 40, ThoroughSec: 1200, DesignRef: "6.C19",
 		Scenarios: []scenSpec{{Name: "netad", Share: 1}},
 		LevelText: "the real Listen/Accept/streamWrapper adapter over the simulated kernel with 1-3 client sessions of 1-3 streams each, client Write calls and server Read calls of arbitrary sizes, echo traffic, deadlines, closes from either side and the listener closed at a tape-chosen moment (during handshakes, during traffic, or at the end); oracle: every stream the peer could see surfaces exactly once as a net.Conn carrying its own bytes in order, Write returns len(p) or an error, Read returns 1..len(p) bytes or an error, deadlines never fire early, operations after Close fail, closing the listener unblocks Accept within 5 s, and once every accepted connection is closed the server process holds no session resources (descriptor, memfd, mapping) any more.",
-		Rule: "seeded session/stream/write/read-size plans x backlog size x listener close time x session configuration x schedules; non-trivial = at least one connection was accepted and more than 200 context switches; distinct = distinct schedule signatures among non-trivial runs"})
+		Rule:      "seeded session/stream/write/read-size plans x backlog size x listener close time x session configuration x schedules; non-trivial = at least one connection was accepted and more than 200 context switches; distinct = distinct schedule signatures among non-trivial runs"})
 	reg(&propSpec{ID: "C13", Level: "exploration", QuickSec: 40, ThoroughSec: 1200, DesignRef: "6.C13",
 		Scenarios: []scenSpec{{Name: "fuzz", Share: 1}},
 		LevelText: "real sessions (client and server role, handshake and established phase) whose control connection receives generated wire-format events mutated by truncation, inconsistent lengths, bad magic/version/type, wrong direction or phase, duplication and garbage, delivered under seeded fragmentations and schedules; oracle: no panic or memory fault in any goroutine of the victim process, handshake returns within InitializeTimeout + slack, another session of the same process still completes a round trip, and a well-formed byte string has the same observable effect however it is cut into reads (differential between two victims in the same run).",
-		Rule: "seeded generation of event sequences from the wire format + mutation operators x fragmentation patterns (1 byte .. all at once) x kernel read fragmentation x schedules; non-trivial = non-empty input and more than 50 context switches; distinct = distinct schedule signatures among non-trivial runs"})
+		Rule:      "seeded generation of event sequences from the wire format + mutation operators x fragmentation patterns (1 byte .. all at once) x kernel read fragmentation x schedules; non-trivial = non-empty input and more than 50 context switches; distinct = distinct schedule signatures among non-trivial runs"})
 }
 
 type runRecord struct {
-	Run        int64              `json:"run"`
-	Seed       uint64             `json:"seed"`
-	Scenario   string             `json:"scenario"`
-	Steps      int64              `json:"steps"`
-	Switches   int64              `json:"switches"`
-	Preempts   int64              `json:"preempts"`
-	VTimeNs    int64              `json:"vtime_ns"`
-	Digest     string             `json:"digest"`
-	Sig        string             `json:"sig"`
-	Result     string             `json:"result"`
-	Failures   []failure          `json:"failures,omitempty"`
-	Counters   map[string]int64   `json:"counters,omitempty"`
-	Kinds      map[string]int64   `json:"kinds,omitempty"`
-	Nontrivial bool               `json:"nontrivial"`
-	Leaked     int                `json:"leaked,omitempty"`
-	Blocked    []string           `json:"blocked,omitempty"`
-	Plan       json.RawMessage    `json:"plan,omitempty"`
-	Tape       []uint32           `json:"tape,omitempty"`
-	WallUs     int64              `json:"wall_us"`
-	Other      []failure          `json:"other_property,omitempty"`
-	Variant    bool               `json:"variant,omitempty"`
+	Run        int64            `json:"run"`
+	Seed       uint64           `json:"seed"`
+	Scenario   string           `json:"scenario"`
+	Steps      int64            `json:"steps"`
+	Switches   int64            `json:"switches"`
+	Preempts   int64            `json:"preempts"`
+	VTimeNs    int64            `json:"vtime_ns"`
+	Digest     string           `json:"digest"`
+	Sig        string           `json:"sig"`
+	Result     string           `json:"result"`
+	Failures   []failure        `json:"failures,omitempty"`
+	Counters   map[string]int64 `json:"counters,omitempty"`
+	Kinds      map[string]int64 `json:"kinds,omitempty"`
+	Nontrivial bool             `json:"nontrivial"`
+	Leaked     int              `json:"leaked,omitempty"`
+	Blocked    []string         `json:"blocked,omitempty"`
+	Plan       json.RawMessage  `json:"plan,omitempty"`
+	Tape       []uint32         `json:"tape,omitempty"`
+	WallUs     int64            `json:"wall_us"`
+	Other      []failure        `json:"other_property,omitempty"`
+	Variant    bool             `json:"variant,omitempty"`
 }
 
 type failure struct {
@@ -209,6 +209,9 @@ func goEnv() []string {
 func main() {
 	if v := os.Getenv("VERIF_DIR"); v != "" {
 		verifDir = v
+	}
+	if v := os.Getenv("VERIF_REPO"); v != "" {
+		repoDir = v
 	}
 	if len(os.Args) < 2 {
 		die(2, "usage: vcheck <property|replay|build|selftest-determinism> ...")
@@ -704,29 +707,29 @@ func cmdCheck(prop string, args []string) int {
 		samples = append(samples, map[string]interface{}{"scenario": r.Scenario, "run": r.Run, "seed": r.Seed, "steps": r.Steps, "switches": r.Switches, "result": r.Result})
 	}
 	cov := map[string]interface{}{
-		"evaluations":         evals,
-		"distinct_nontrivial": len(sigs),
-		"rule":                spec.Rule,
-		"samples":             samples,
-		"results":             results,
-		"runs_per_hour":       int64(float64(evals) / searchS * 3600),
-		"simulated_time_s":    float64(vtime) / 1e9,
-		"scheduler_steps":     steps,
-		"context_switches":    switches,
-		"faults_fired":        faults,
-		"reach_probes":        probes,
-		"counters":            other,
-		"decision_kinds":      kinds,
-		"scenarios":           perScn,
-		"real_components":     realComponents,
-		"stub_components":     stubComponents,
-		"known_findings_seen": knownSeen,
+		"evaluations":                  evals,
+		"distinct_nontrivial":          len(sigs),
+		"rule":                         spec.Rule,
+		"samples":                      samples,
+		"results":                      results,
+		"runs_per_hour":                int64(float64(evals) / searchS * 3600),
+		"simulated_time_s":             float64(vtime) / 1e9,
+		"scheduler_steps":              steps,
+		"context_switches":             switches,
+		"faults_fired":                 faults,
+		"reach_probes":                 probes,
+		"counters":                     other,
+		"decision_kinds":               kinds,
+		"scenarios":                    perScn,
+		"real_components":              realComponents,
+		"stub_components":              stubComponents,
+		"known_findings_seen":          knownSeen,
 		"other_property_oracles_fired": otherProps,
-		"violation_samples":   violSamples,
-		"tree":                tree,
-		"workers":             workers,
-		"build_s":             buildS,
-		"exhaustive":          false,
+		"violation_samples":            violSamples,
+		"tree":                         tree,
+		"workers":                      workers,
+		"build_s":                      buildS,
+		"exhaustive":                   false,
 	}
 	if variants > 0 {
 		cov["fault_sweep"] = map[string]interface{}{"base_runs": bases, "fault_variants": variants,
